@@ -456,7 +456,8 @@ pub fn gen_user_props(t: &mut Tape, cfg: &GenCfg) -> Vec<v5::UserProperty> {
     let mode = OPT_MODE.with(|m| m.get());
     let mut n = t.weighted(&[10, 5, 3, 2, 1, 1, 1]);
     if mode == 1 {
-        n = n.max(1);
+        // (a full packet sometimes carries more entries than any small-collection fast path covers)
+        n = if t.chance(1, 4) { 33 + t.pick(16) } else { n.max(1) };
     } else if mode == 2 {
         n = 0;
     }
